@@ -477,7 +477,12 @@ class _Bip373:
         self.leaf: list[bytes] = []
         modes = []
         for v in range(n_in):
-            keys = ch.shuffled(self.pk, "order.perm")
+            # the participant list may name a key more than once (each distinct signer still signs once:
+            # the psbt files nonces and partial signatures by participant key, the session counts slots)
+            dupes = [self.pk[ch.draw(n, "dupkey.of")] for _ in range(ch.draw(3, "dupkey.n"))] if ch.draw(3, "dupkey?") == 2 else []
+            if dupes:
+                ctx.probe("bip373-duplicate-participant")
+            keys = ch.shuffled(self.pk + dupes, "order.perm")
             sort = bool(ch.draw(2, "sort"))
             mode = ch.pick(["output", "internal", "derived", "script"], "mode")
             modes.append(mode)
